@@ -164,6 +164,46 @@ class BoolRec(Rec):
         return False
 
 
+# "Dunder chaos": special methods a user class may define for reasons of its own. None of them says anything about the
+# object's place in the framework (presence, identity, priority, registration order), so a class carrying any subset of them
+# must be treated exactly like a plain one. (__eq__ / __hash__ live in EqRec; Agent's own container dunders are not touched.)
+HOSTILE_DUNDERS = {
+    "__len__": lambda self: 0,
+    "__bool__": lambda self: False,
+    "__iter__": lambda self: iter(("junk", None, 0)),
+    "__getitem__": lambda self, k: ("item", k),
+    "__contains__": lambda self, x: True,
+    "__call__": lambda self, *a, **k: "called",
+    "__lt__": lambda self, other: False,
+    "__gt__": lambda self, other: False,
+    "__le__": lambda self, other: True,
+    "__ge__": lambda self, other: True,
+    "__int__": lambda self: 7,
+    "__index__": lambda self: 7,
+    "__float__": lambda self: 0.5,
+    "__repr__": lambda self: "<{!r:>%s}>",          # text that looks like a format template
+    "__str__": lambda self: "%(name)s {0} {}",
+    "__enter__": lambda self: self,
+    "__exit__": lambda self, *a: True,
+    "__neg__": lambda self: self,
+    "__add__": lambda self, other: 0,
+    "__radd__": lambda self, other: 0,
+}
+
+
+ChaosMixin = type("ChaosMixin", (), dict(HOSTILE_DUNDERS, __doc__="All of the special methods above at once (for component classes)."))
+
+
+def hostile(base, names):
+    """A subclass of `base` that defines the given special methods (sorted: one name list is one class shape)."""
+    names = [n for n in sorted(set(names)) if n in HOSTILE_DUNDERS]
+    return type("Hostile" + base.__name__, (base,), {n: HOSTILE_DUNDERS[n] for n in names})
+
+
+def gen_dunders(rng):
+    return sorted(rng.sample(sorted(HOSTILE_DUNDERS), rng.randint(1, 5)))
+
+
 def gen_flavour(rng):
     """Scenario fields deciding the class of the recording systems (drawn last, so older fields keep their stream)."""
     r = rng.random()
@@ -176,6 +216,8 @@ def gen_flavour(rng):
         return {"value_eq": False, "syskind": rng.choice(["collector", "file", "file"]), "returns": None}
     if r < 0.44:
         return {"value_eq": False, "syskind": rng.choice(["own_order", "mixin_execute"]), "returns": None}
+    if r < 0.56:
+        return {"value_eq": False, "dunders": gen_dunders(rng), "returns": ret}
     return {"value_eq": False, "returns": ret}
 
 
@@ -195,6 +237,10 @@ def rec_class(sc, ctx=None):
         if ctx is not None:
             ctx.probe("systems_that_are_bundled_collectors" if sc["syskind"] in ("file", "collector") else "systems_of_kind_" + sc["syskind"])
         return {"file": RecFileSys, "collector": RecCollectorSys, "own_order": LtRec, "mixin_execute": MixRec}[sc["syskind"]]
+    if sc.get("dunders"):
+        if ctx is not None:
+            ctx.probe("systems_with_special_methods_of_their_own")
+        return hostile(Rec, sc["dunders"])
     return Rec
 
 
